@@ -4,8 +4,10 @@ C08 — Formatting a program does not change what it means.
 The theorems cover formulas: the formatter's `term`/`factor` emitters print a tree as its
 in-order sequence of operands and operators (Model: `fmt`), and the parser
 (Model/Prec.lean `parseFormula`, proved in C02 to return the unique well-grouped tree of its
-input) reads that sequence back.  For the rest of the grammar the round trip is checked on
-the implementation directly (search, not proof).
+input) reads that sequence back; Model/Formula.lean extends this to the whole formula grammar at
+token level (parentheses to any depth, prefix `-` and `!`, transpose, the two readings of `-`),
+with both directions of the round trip.  For the rest of the grammar the round trip is checked
+on the implementation directly (search, not proof).
 
 String literals (Model/StrLit.lean): the scanner of `utf8_string` over grapheme classes and the
 emitter `Formatter::string`; the content of a literal survives formatting and re-parsing.
@@ -49,6 +51,35 @@ theorem C08_formula_text_is_source (N : Nat) (a : α) (rest : Rest α) (h : OpsI
   exact Prod.ext hin.1 hall.2
 
 end MechVerif.Prec
+
+/-! ## formulas with parentheses, prefix operators and transposes (Model/Formula.lean) -/
+namespace MechVerif.Formula
+open MechVerif.Prec
+
+/-- Formatting what was parsed gives back the text: whatever token text the formula parser accepts
+    — any nesting, any operators, also texts like `-a''` — is exactly the rendering of the tree it
+    returns followed by the input it left unread.  No hypothesis on the text. -/
+theorem C08_nested_formula_text_is_source (g : Gram) (n : Nat) (ts : List Tok) (t : Trm) (r : List Tok)
+    (h : pForm g n ts = some (t, r)) : rTrm g t ++ r = ts :=
+  ((pr_all g n).2.2 ts t r h).symm
+
+/-- Parsing the formatted text gives back the tree: the rendering of a canonical tree (inside every
+    pair of parentheses the documented grouping; a transposed factor is an atom or parenthesised)
+    is read as that tree, with nothing left over. -/
+theorem C08_nested_formula_roundtrip (g : Gram) (t : Trm) (h : okT g t) (n : Nat) (hn : costT t + 2 ≤ n) :
+    pForm g n (rTrm g t) = some (t, []) := by
+  have := C02_nested_formula_parse g t h n hn [] (by intro t r e; cases e)
+  simpa using this
+
+/-- Formatting is idempotent on formulas: the text of the re-parsed tree is the text. -/
+theorem C08_nested_formula_idempotent (g : Gram) (t : Trm) (h : okT g t) (n : Nat) (hn : costT t + 2 ≤ n) :
+    (pForm g n (rTrm g t)).map (fun p => rTrm g p.1) = some (rTrm g t) := by
+  rw [C08_nested_formula_roundtrip g t h n hn]; rfl
+
+example : okT g7 demo := by
+  simp [okT, okL, okF, WellGrouped, OpsIn, demo, Tree.ops, Tree.tail, Tree.first, Fac.isBase, g7, plus, times, pow]
+
+end MechVerif.Formula
 
 namespace MechVerif.StrLit
 
